@@ -5,6 +5,7 @@ From Coq Require Import List NArith Bool Lia.
 From Verif Require Import Chain.Model Chain.Proofs Chain.ProofsWalk Chain.ProofsSys Chain.ProofsTx Chain.ProofsAccept
   Chain.ProofsChainInv Chain.ProofsChainDep Chain.Replay Chain.Examples.
 From Verif Require Header.Rules Validation.Body Compose.Replay Compose.ReplayExamples.
+From Verif Require Codec.Model Codec.ProofsBind Compose.TxIdBind Compose.TxIdBindExamples.
 Import ListNotations.
 Open Scope N_scope.
 
@@ -258,3 +259,94 @@ Print Assumptions lookups_total_on_histories.
 Print Assumptions c02_accepted_chain_inv.
 Print Assumptions c02_accepted_chain_dependency.
 Print Assumptions ex_c09_accepted_by_c02.
+
+(* ================================================================ composition, second round *)
+(* C09 <-> C11 (Compose/TxIdBind.v).  Theorems 6, 8 and 12 above carry the premise "an id determines the tx" (U_inj) about
+   the abstract universe U.  C11 proves, for the transactions the real decoders return and with Blake2b an opaque function H
+   whose collision-freeness is the NAMED hypothesis H_inj, that the id H(H(signing bytes) ++ origin) binds every signed field
+   and the origin.  With U instantiated by the records of those transactions (TxIdBind.view: id := the id bytes as a number,
+   chain tag / block-ref number / expiration / depends-on := projections of C11's signed part, origin := the 20 recovered
+   bytes) U_inj is a THEOREM under H_inj, and 6, 8, 12 hold with U_inj replaced by H_inj. *)
+Section CompositionC11.
+  Variable H : Codec.Model.bytes -> Codec.Model.bytes.
+  Hypothesis H_inj : forall a b, H a = H b -> a = b.
+  Notation U11 := (TxIdBind.c11_universe H).
+
+  (* 13. U_inj for C11's transactions *)
+  Theorem tx_id_determines_record : forall t1 t2, U11 t1 -> U11 t2 -> tx_id t1 = tx_id t2 -> t1 = t2.
+  Proof. exact (TxIdBind.c11_universe_inj H H_inj). Qed.
+
+  (* ... in C11's terms: equal ids => equal signed parts and equal origins *)
+  Theorem tx_id_binds_signed_part_and_origin t1 t2 o1 o2 :
+    Codec.Model.wfp Codec.Model.c_tx t1 -> Codec.Model.wfp Codec.Model.c_tx t2 -> length o1 = length o2 ->
+    tx_id (TxIdBind.view H t1 o1) = tx_id (TxIdBind.view H t2 o2) ->
+    Codec.ProofsBind.signed_part t1 = Codec.ProofsBind.signed_part t2 /\ o1 = o2.
+  Proof. exact (TxIdBind.view_id_binds H H_inj t1 t2 o1 o2). Qed.
+
+  (* 14. theorem 6 (accepted_chain_inv) with U_inj replaced by H_inj *)
+  Theorem accepted_chain_inv_c11 g gp tag : num_of g = 0 -> num_of gp = max_u32 ->
+    forall r, reachable g gp tag (accepted U11) r -> forall h, stored r h ->
+      (forall a t, anc r h a -> tx_in r a t -> U11 t /\ tx_tag t = tag /\ tx_ref t <= num_of a /\ num_of a <= tx_ref t + tx_exp t) /\
+      (forall a1 t1 a2 t2, anc r h a1 -> anc r h a2 -> tx_in r a1 t1 -> tx_in r a2 t2 -> tx_id t1 = tx_id t2 -> a1 = a2) /\
+      (forall a s b, anc r h a -> get_block r a = Some (s, b) -> NoDup (map tx_id (b_txs b))).
+  Proof. intros Hg Hgp. exact (TxIdBind.accepted_chain_inv_c11 H H_inj g gp tag Hg Hgp). Qed.
+
+  (* 15. theorem 8 (has_tx_paths_agree_on_accepted) with U_inj replaced by H_inj *)
+  Theorem has_tx_paths_agree_on_accepted_c11 g gp tag : num_of g = 0 -> num_of gp = max_u32 ->
+    forall r, reachable g gp tag (accepted U11) r ->
+    forall h t o, stored r h -> Codec.Model.wfp Codec.Model.c_tx t -> length o = 20%nat ->
+      let x := TxIdBind.view H t o in
+      exists v, has_transaction r h (tx_id x) (tx_ref x) = Ok v /\ has_tx_indexed r h (tx_id x) = Ok v /\
+                (tx_ref x <= num_of h -> num_of h - tx_ref x < 100 -> recent_walk r (tx_id x) (tx_ref x) 102 h = Ok v) /\
+                (v = true <-> exists a, incl_on r h (tx_id x) a).
+  Proof. intros Hg Hgp. exact (TxIdBind.has_tx_paths_agree_on_accepted_c11 H H_inj g gp tag Hg Hgp). Qed.
+
+  (* 16. the same transaction (same id) is on a chain at most once, and two inclusions with one id are one transaction up to
+         the signature *)
+  Theorem included_once_c11 g gp tag : num_of g = 0 -> num_of gp = max_u32 ->
+    forall r, reachable g gp tag (accepted U11) r -> forall h, stored r h ->
+    forall a1 a2 t1 o1 t2 o2, anc r h a1 -> anc r h a2 ->
+      Codec.Model.wfp Codec.Model.c_tx t1 -> Codec.Model.wfp Codec.Model.c_tx t2 -> length o1 = length o2 ->
+      tx_in r a1 (TxIdBind.view H t1 o1) -> tx_in r a2 (TxIdBind.view H t2 o2) ->
+      Codec.ProofsBind.go_tx_id H t1 (Some o1) = Codec.ProofsBind.go_tx_id H t2 (Some o2) ->
+      a1 = a2 /\ Codec.ProofsBind.signed_part t1 = Codec.ProofsBind.signed_part t2 /\ o1 = o2.
+  Proof. intros Hg Hgp. exact (TxIdBind.included_once_c11 H H_inj g gp tag Hg Hgp). Qed.
+
+  (* 17. theorem 12 (chains of blocks accepted by C02's Process) with U_inj replaced by H_inj: both first-round premises of
+         theorem 6 — "every block passed validate" and "an id determines the tx" — are now discharged *)
+  Theorem c02_accepted_chain_inv_c11 (State : Type)
+      (exec : Header.Rules.bctx -> State -> Validation.Body.txn -> option (State * Validation.Body.receipt))
+      (apply_updates : bool -> N -> State -> list (N * bool) -> State) (rewards : Header.Rules.bctx -> State -> option State)
+      (sanity : State -> bool) (root_of_state : State -> N) (root_of_receipts : list Validation.Body.receipt -> N)
+      (root_of_txs : list Validation.Body.txn -> N) g gp tag : num_of g = 0 -> num_of gp = max_u32 ->
+    forall r, reachable g gp tag
+                (Replay.c02_accepted State exec apply_updates rewards sanity root_of_state root_of_receipts root_of_txs U11) r ->
+    forall h, stored r h ->
+      (forall a t, anc r h a -> tx_in r a t -> U11 t /\ tx_tag t = tag /\ tx_ref t <= num_of a /\ num_of a <= tx_ref t + tx_exp t) /\
+      (forall a1 t1 a2 t2, anc r h a1 -> anc r h a2 -> tx_in r a1 t1 -> tx_in r a2 t2 -> tx_id t1 = tx_id t2 -> a1 = a2) /\
+      (forall a s b, anc r h a -> get_block r a = Some (s, b) -> NoDup (map tx_id (b_txs b))).
+  Proof.
+    exact (c02_accepted_chain_inv State exec apply_updates rewards sanity root_of_state root_of_receipts root_of_txs g gp tag U11
+             tx_id_determines_record).
+  Qed.
+End CompositionC11.
+
+(* non-vacuity of 13-16: an injective toy hash, decodable transactions (legacy and dynamic-fee), a fork history with the
+   same transaction on both siblings, every block accepted: all premises met, H_inj proved for the instance *)
+Example ex_c09_c11 :
+  (forall a b, TxIdBindExamples.x_H a = TxIdBindExamples.x_H b -> a = b) /\
+  num_of ex_g = 0 /\ num_of ex_gp = max_u32 /\
+  reachable ex_g ex_gp 7 (accepted (TxIdBind.c11_universe TxIdBindExamples.x_H)) TxIdBindExamples.x_r3 /\
+  validate TxIdBindExamples.x_r3 (mkB (bid 3 1) (bid 2 1) 30 [TxIdBindExamples.x_va] [TxIdBindExamples.x_rc]) = V_exists.
+Proof.
+  split; [exact TxIdBindExamples.x_H_inj|]. split; [exact ex_g_num|]. split; [exact ex_gp_num|].
+  split; [exact TxIdBindExamples.x_history | exact (proj1 TxIdBindExamples.x_rejects)].
+Qed.
+
+Print Assumptions tx_id_determines_record.
+Print Assumptions tx_id_binds_signed_part_and_origin.
+Print Assumptions accepted_chain_inv_c11.
+Print Assumptions has_tx_paths_agree_on_accepted_c11.
+Print Assumptions included_once_c11.
+Print Assumptions c02_accepted_chain_inv_c11.
+Print Assumptions ex_c09_c11.
